@@ -68,6 +68,16 @@ Theorem C13_function_refuted :
 Proof. exact function_across_orders_refuted. Qed.
 Print Assumptions C13_function_refuted.
 
+(* from_dict leaves its argument as it was, DC_TYPE_KEY entries included (it pops from its own copy: regenerated fact) *)
+Theorem C13_argument_untouched : forall p, from_dict_arg_after FROM_DICT_POP DC_TYPE_KEY p = p.
+Proof. exact from_dict_leaves_argument. Qed.
+Print Assumptions C13_argument_untouched.
+(* field() writes the metadata keys that to_dict / decode_field read *)
+Theorem C13_hooks_wired : forall m,
+  eff_incl HOOKS_WIRED m = m.(m_incl) /\ eff_enc HOOKS_WIRED m = m.(m_enc) /\ eff_dec HOOKS_WIRED m = m.(m_dec).
+Proof. exact hooks_wired_ok. Qed.
+Print Assumptions C13_hooks_wired.
+
 Definition nv13_val : value :=
   VDc KSer "H" [("a", mkmeta true (Some 7) None, VList [VInt 1; VInt 2]);
                 ("h", mkmeta false None None, VStr "hidden");
